@@ -4314,12 +4314,20 @@ func (fastpathDT[T]) DecSliceUint8Y(v []uint8, d *decoder[T]) (v2 []uint8, chang
 	if ctyp == valueTypeNil {
 		return nil, v != nil
 	}
-	if ctyp != valueTypeMap {
+	if ctyp == valueTypeBytes || ctyp == valueTypeString {
 		var dbi dBytesIntoState
 		v2, dbi = d.decodeBytesInto(v[:len(v):len(v)], false)
 		return v2, dbi != dBytesIntoParamOut
 	}
-	containerLenS := d.mapStart(d.d.ReadMapStart()) * 2
+	var containerLenS int
+	isArray := ctyp == valueTypeArray
+	if isArray {
+		containerLenS = d.arrayStart(d.d.ReadArrayStart())
+	} else if ctyp == valueTypeMap {
+		containerLenS = d.mapStart(d.d.ReadMapStart()) * 2
+	} else {
+		halt.errorStr2("decoding into a slice, expect map/array - got ", ctyp.String())
+	}
 	hasLen := containerLenS >= 0
 	var j int
 	fnv := func(dst []uint8) { v, changed = dst, true }
@@ -4338,7 +4346,9 @@ func (fastpathDT[T]) DecSliceUint8Y(v []uint8, d *decoder[T]) (v2 []uint8, chang
 				fnv(v[:containerLenS])
 			}
 		}
-		if j&1 == 0 {
+		if isArray {
+			d.arrayElem(j == 0)
+		} else if j&1 == 0 {
 			d.mapElemKey(j == 0)
 		} else {
 			d.mapElemValue()
@@ -4353,7 +4363,11 @@ func (fastpathDT[T]) DecSliceUint8Y(v []uint8, d *decoder[T]) (v2 []uint8, chang
 	} else if j == 0 && v == nil {
 		fnv([]uint8{})
 	}
-	d.mapEnd()
+	if isArray {
+		d.arrayEnd()
+	} else {
+		d.mapEnd()
+	}
 	return v, changed
 }
 func (fastpathDT[T]) DecSliceUint8N(v []uint8, d *decoder[T]) {
@@ -4361,14 +4375,24 @@ func (fastpathDT[T]) DecSliceUint8N(v []uint8, d *decoder[T]) {
 	if ctyp == valueTypeNil {
 		return
 	}
-	if ctyp != valueTypeMap {
+	if ctyp == valueTypeBytes || ctyp == valueTypeString {
 		d.decodeBytesInto(v[:len(v):len(v)], true)
 		return
 	}
-	containerLenS := d.mapStart(d.d.ReadMapStart()) * 2
+	var containerLenS int
+	isArray := ctyp == valueTypeArray
+	if isArray {
+		containerLenS = d.arrayStart(d.d.ReadArrayStart())
+	} else if ctyp == valueTypeMap {
+		containerLenS = d.mapStart(d.d.ReadMapStart()) * 2
+	} else {
+		halt.errorStr2("decoding into a slice, expect map/array - got ", ctyp.String())
+	}
 	hasLen := containerLenS >= 0
 	for j := 0; d.containerNext(j, containerLenS, hasLen); j++ {
-		if j&1 == 0 {
+		if isArray {
+			d.arrayElem(j == 0)
+		} else if j&1 == 0 {
 			d.mapElemKey(j == 0)
 		} else {
 			d.mapElemValue()
@@ -4380,7 +4404,11 @@ func (fastpathDT[T]) DecSliceUint8N(v []uint8, d *decoder[T]) {
 			d.swallow()
 		}
 	}
-	d.mapEnd()
+	if isArray {
+		d.arrayEnd()
+	} else {
+		d.mapEnd()
+	}
 }
 
 func (d *decoder[T]) fastpathDecSliceUint64R(f *decFnInfo, rv reflect.Value) {
